@@ -155,6 +155,27 @@ PARSE_ERROR_PROFILES += [
     "profile: x\nprefixes: [ex]\nviolation: [v]\nvalidations:\n  v:\n    targetClass: doc.Unit\n    propertyConstraints: [doc.a]\n",
 ]
 
+# connectives and constraint maps without operands, alone and next to other operands; misspelt constraint names
+# (whether each is an error or an empty conjunction is the implementation's choice: what must not happen is a panic)
+def _wrap(body):
+    return "profile: x\nprefixes:\n  ex: http://example.org/ns#\nviolation: [v]\nvalidations:\n  v:\n    targetClass: ex.T\n    message: m\n" + body
+
+
+EMPTY_SHAPE_PROFILES = [_wrap(b) for b in (
+    "    and: []\n", "    or: []\n", "    propertyConstraints: {}\n", "    not:\n      and: []\n", "    not:\n      or: []\n",
+    "    and:\n      - and: []\n      - propertyConstraints:\n          ex.p:\n            minCount: 1\n",
+    "    or:\n      - propertyConstraints:\n          ex.p:\n            minCount: 1\n      - or: []\n",
+    "    or:\n      - propertyConstraints: {}\n      - propertyConstraints:\n          ex.p:\n            minCount: 1\n",
+    "    and:\n      - propertyConstraints:\n          ex.p:\n            minCounts: 1\n      - propertyConstraints:\n          ex.q:\n            minCount: 1\n",
+    "    propertyConstraints:\n      ex.p:\n        minCounts: 1\n      ex.q:\n        minCount: 1\n",
+    "    propertyConstraints:\n      ex.p: {}\n      ex.q:\n        minCount: 1\n",
+    "    propertyConstraints:\n      ex.child:\n        nested:\n          propertyConstraints: {}\n      ex.q:\n        minCount: 1\n",
+    "    propertyConstraints:\n      ex.child:\n        nested:\n          and: []\n",
+    "    propertyConstraints:\n      ex.child:\n        atLeast:\n          count: 1\n          validation:\n            or: []\n      ex.q:\n        minCount: 1\n",
+    "    if:\n      and: []\n    then:\n      or: []\n",
+    "    not:\n      or:\n        - and: []\n        - propertyConstraints:\n            ex.p:\n              minCount: 1\n",
+)]
+
 GEN_ERROR_PROFILES = [
     # unknown prefix in targetClass
     "profile: x\nviolation: [v]\nvalidations:\n  v:\n    targetClass: nope.Unit\n    propertyConstraints:\n      doc.a:\n        minCount: 1\n",
